@@ -162,6 +162,15 @@ var (
 func loopback() *httptest.Server {
 	srvOnce.Do(func() {
 		srv = httptest.NewServer(http.HandlerFunc(func(w http.ResponseWriter, r *http.Request) {
+			if strings.HasPrefix(r.URL.Path, "/redir/") {
+				// temporary redirect to the page itself
+				loc := strings.TrimPrefix(r.URL.Path, "/redir")
+				if r.URL.RawQuery != "" {
+					loc += "?" + r.URL.RawQuery
+				}
+				http.Redirect(w, r, loc, http.StatusFound)
+				return
+			}
 			srvMu.Lock()
 			body, ok := srvPage[r.URL.Path]
 			srvMu.Unlock()
@@ -179,7 +188,7 @@ func loopback() *httptest.Server {
 func init() {
 	register(&Prop{
 		ID: "C10",
-		Rule: "histories of calls on caller-owned arguments: a G-article page with every construct that makes the pipeline rewrite nodes (javascript: anchors, font, noscript/lazy images, picture without img, embeds, twitter quotes, figures, data tables) is parsed once; roots = the document, a random attached element, a detached clone; a history of 5 calls (same tree, same *Options reused, other algorithm/flags through fresh Options sharing the same *url.URL, nil options) runs and after EVERY call a deep snapshot of the whole tree (from the top-most ancestor: node identity, Type, DataAtom, Data, Namespace, attributes, all five links) and of Options + *url.URL (incl. Userinfo) is compared with the snapshot before. ApplyForReader/ApplyForFile are checked for the Options; ApplyForURL runs against an in-process loopback HTTP server with opts in {nil, OriginalURL nil, OriginalURL = another URL} and additionally Result.URL must be the requested address. Non-trivial = a call that returned a result; distinct = distinct (entry point, root kind, block kinds of the page).",
+		Rule: "histories of calls on caller-owned arguments: a G-article page with every construct that makes the pipeline rewrite nodes (javascript: anchors, font, noscript/lazy images, picture without img, embeds, twitter quotes, figures, data tables) is parsed once; roots = the document, a random attached element, a detached clone; a history of 5 calls (same tree, same *Options reused, other algorithm/flags through fresh Options sharing the same *url.URL, nil options) runs and after EVERY call a deep snapshot of the whole tree (from the top-most ancestor: node identity, Type, DataAtom, Data, Namespace, attributes, all five links) and of Options + *url.URL (incl. Userinfo) is compared with the snapshot before. ApplyForReader/ApplyForFile are checked for the Options; ApplyForURL runs against an in-process loopback HTTP server with opts in {nil, OriginalURL nil, OriginalURL = another URL} over addresses with query, fragment and a temporary redirect; Result.URL must be the address the document was fetched from (fragment kept) and the whole result must equal ApplyForReader on the same bytes with OriginalURL = that address. Non-trivial = a call that returned a result; distinct = distinct (entry point, root kind, block kinds of the page).",
 		Assumptions: []string{
 			"loopback HTTP (127.0.0.1) is available in the sandbox",
 			"the snapshot compares attribute slices by content (a reallocated but equal slice is not a modification the caller can observe through the API of html.Node)",
@@ -320,7 +329,25 @@ func runC10(c *Ctx, idx int) {
 		srvMu.Lock()
 		srvPage[path] = src
 		srvMu.Unlock()
-		target := s.URL + path + "?x=1"
+		// the address asked for and the address the document is finally fetched from
+		// (a fragment is not sent to the server and survives a redirect)
+		target, fetched := s.URL+path+"?x=1", ""
+		switch c.RNG(idx, 5).Intn(6) {
+		case 0:
+			target = s.URL + path + "#frag"
+		case 1:
+			target = s.URL + path + "?x=1#frag"
+		case 2:
+			target, fetched = s.URL+"/redir"+path+"?x=1", s.URL+path+"?x=1"
+		case 3:
+			target, fetched = s.URL+"/redir"+path+"#frag", s.URL+path+"#frag"
+		}
+		redirected := fetched != ""
+		if !redirected {
+			fetched = target
+		} else {
+			c.Inc("applyforurl_redirected")
+		}
 		other := mustURL("http://orig.example/some/page?z=9")
 		otherSnap := snapURL(other)
 		for k, o := range []*distiller.Options{nil, {PaginationAlgo: distiller.PageNumber}, {OriginalURL: other, PaginationAlgo: distiller.PaginationAlgo(idx % 2)}} {
@@ -345,9 +372,28 @@ func runC10(c *Ctx, idx int) {
 				c.Violation("url-modified:ApplyForURL", "ApplyForURL modified the caller's *url.URL: "+d, witness(map[string]any{"difference": d}))
 				return
 			}
-			if cr.Res.URL != target {
-				c.Violation("applyforurl-result-url", fmt.Sprintf("ApplyForURL(%q) returned Result.URL=%q", target, cr.Res.URL), witness(map[string]any{"requested": target, "result_url": cr.Res.URL}))
+			if redirected && cr.Res.URL == strings.TrimSuffix(fetched, "#frag") {
+				// whether a fragment survives a redirect is the HTTP client's business
+				// (browsers carry it over, net/http does not); both are "the fetched address"
+				fetched = cr.Res.URL
+			}
+			if cr.Res.URL != fetched {
+				c.Violation("applyforurl-result-url", fmt.Sprintf("ApplyForURL(%q) fetched %q but returned Result.URL=%q", target, fetched, cr.Res.URL), witness(map[string]any{"requested": target, "fetched": fetched, "result_url": cr.Res.URL}))
 				return
+			}
+			// "uses the fetched address as page URL": same outcome as distilling the
+			// same bytes with OriginalURL = the fetched address
+			ro := distiller.Options{}
+			if o != nil {
+				ro = *o
+			}
+			ro.OriginalURL = mustURL(fetched)
+			if ref := c.applyReader(src, &ro); ref.Panic == "" && ref.Err == nil {
+				c.Inc("applyforurl_vs_reader_compared")
+				if d := diffViews(viewOf(cr.Res), viewOf(ref.Res), true); d != "" {
+					c.Violation("applyforurl-page-url:"+d, fmt.Sprintf("ApplyForURL(%q) differs in %s from ApplyForReader on the same bytes with OriginalURL=%q", target, d, fetched), witness(map[string]any{"requested": target, "fetched": fetched, "fields": d}))
+					return
+				}
 			}
 			c.Sig(fmt.Sprintf("ApplyForURL|%d|%s", k, kindSig(g.L.Kinds)))
 		}
